@@ -5,7 +5,10 @@
 // String(), parsed back with parse.BaseTerm / parse.Atom / parse.Clause and compared with an own
 // structural comparer:
 //   - a constant is compared by canonical key (val.Key) after functional.EvalExpr of what the parser
-//     returned (lists, maps, structs, pairs, times and durations print as constructor expressions);
+//     returned (lists, maps, structs, pairs, times and durations print as constructor expressions), and
+//     then by the order in which the public accessors (MapValues/StructValues) yield the entries of
+//     every map and struct: the entry sequence is part of the constant's structure (Constant.Equals
+//     compares it), so the same entries in another order are not the same constant;
 //   - function arity is ignored (the parser records the actual count, constructors often -1), exactly as
 //     ApplyFn.Equals does;
 //   - a missing head annotation and the eternal interval are the same;
@@ -300,8 +303,12 @@ func cmpBase(path string, want, got ast.BaseTerm) error {
 		if !ok {
 			return fmt.Errorf("%s: want the constant %s, got %T %v", path, val.KeyOf(w), got, got)
 		}
-		if kw, kg := val.KeyOf(w), val.KeyOf(gc); kw != kg {
+		vw, vg := val.From(w), val.From(gc)
+		if kw, kg := vw.Key(), vg.Key(); kw != kg {
 			return fmt.Errorf("%s: want the constant %s, got %s", path, kw, kg)
+		}
+		if ow, og := orderedKey(vw), orderedKey(vg); ow != og {
+			return fmt.Errorf("%s: the constant comes back with the entries of a map/struct in another order (not structurally equal): built %s, parsed and evaluated %s", path, ow, og)
 		}
 		return nil
 	case ast.Variable:
@@ -326,6 +333,37 @@ func cmpBase(path string, want, got ast.BaseTerm) error {
 		return nil
 	}
 	return fmt.Errorf("%s: harness: unexpected base term %T", path, want)
+}
+
+// orderedKey is val.Key with the entries of maps and structs in the order given (val.From: the order
+// in which MapValues/StructValues yield them) instead of sorted.
+func orderedKey(v val.V) string {
+	var sb strings.Builder
+	var rec func(v val.V)
+	rec = func(v val.V) {
+		switch v.T {
+		case val.Pair, val.List:
+			sb.WriteString(v.T + "(")
+			for _, e := range v.E {
+				rec(e)
+				sb.WriteString(",")
+			}
+			sb.WriteString(")")
+		case val.Map, val.Struct:
+			sb.WriteString(v.T + "{")
+			for _, kv := range v.KV {
+				rec(kv[0])
+				sb.WriteString("=>")
+				rec(kv[1])
+				sb.WriteString(";")
+			}
+			sb.WriteString("}")
+		default:
+			sb.WriteString(v.Key())
+		}
+	}
+	rec(v)
+	return sb.String()
 }
 
 func cmpAtom(path string, want, got ast.Atom) error {
@@ -550,7 +588,10 @@ func roundTrip(c Case, ft features) (printed string, err error) {
 	return "", fmt.Errorf("harness: unknown case kind %q", c.Kind)
 }
 
-func check(run *stats.Run, f stats.Failer, c Case) verdict {
+// check judges one case. A case that holds a map/struct with hash-equal keys makes the trip `repeats`
+// times: the order in which ast.Map receives its pairs comes from Go's map iteration, on the side
+// of the constructor as well as on the side of the evaluated fn:map expression, and is random per build.
+func check(run *stats.Run, f stats.Failer, c Case, repeats int) verdict {
 	ft := features{}
 	if c.TZOffsetMin != 0 {
 		ast.SetDefaultTimezone(time.FixedZone("case", c.TZOffsetMin*60))
@@ -558,6 +599,11 @@ func check(run *stats.Run, f stats.Failer, c Case) verdict {
 		ft["default-timezone-set"] = true
 	}
 	printed, err := roundTrip(c, ft)
+	if ft["map-with-hash-equal-keys"] {
+		for i := 1; i < repeats && err == nil; i++ {
+			printed, err = roundTrip(c, features{})
+		}
+	}
 	if err != nil {
 		run.Failf(f, "print→parse does not return the same %s: printed %q; %v", c.Kind, clip(printed), err)
 	}
@@ -618,6 +664,24 @@ func (ft features) constant(v val.V, depth int) {
 		}
 		if first != nil && (first.T == val.Num && first.Int() < 0 || first.T == val.Float && math.Signbit(first.Flt())) {
 			ft["bracket-then-minus"] = true
+		}
+	}
+	if len(v.KV) >= 2 {
+		// Two keys with equal library Hash() (statistics and effort only, no influence on the verdict).
+		seen := map[uint64]val.V{}
+		for _, kv := range v.KV {
+			h := kv[0].Build().Hash()
+			if o, ok := seen[h]; ok {
+				ft["map-with-hash-equal-keys"] = true
+				if o.T == kv[0].T && len(o.E)+len(o.KV)+len(kv[0].E)+len(kv[0].KV) > 0 {
+					ft["hash-equal-keys:compound-same-shape"] = true
+				} else if o.T == kv[0].T {
+					ft["hash-equal-keys:scalar-same-type"] = true
+				} else {
+					ft["hash-equal-keys:different-types"] = true
+				}
+			}
+			seen[h] = kv[0]
 		}
 	}
 	for _, e := range v.E {
@@ -875,8 +939,101 @@ func genDeepValue(t *rapid.T) val.V {
 	return deepen(t, v, rapid.IntRange(2, 5).Draw(t, "levels"))
 }
 
+// genHashEqual draws 2-3 pairwise distinct values with equal library Hash(): members of one group of
+// val.Colliders(), or a value next to the number / duration / time / float whose NumValue is its
+// hash (Constant.Hash() is NumValue). In two of three cases all of them are then wrapped 1-2 times
+// into the same compound shape with the same siblings: the hash of a pair, list, map or struct is
+// computed from the hashes of its parts only, so the wrapped values are hash-equal values of ONE type
+// whose Symbol is empty (for instance [] and [0], ["/a"] and [/a], fn:pair(5, 1) and fn:pair(5ns, 1)).
+func genHashEqual(t *rapid.T) []val.V {
+	var vs []val.V
+	if rapid.Bool().Draw(t, "fromGroup") {
+		g := rapid.SampledFrom(val.Colliders()).Draw(t, "kgroup")
+		perm := rapid.Permutation(g).Draw(t, "kperm")
+		n := 2
+		if len(perm) > 2 && rapid.Bool().Draw(t, "three") {
+			n = 3
+		}
+		vs = append(vs, perm[:n]...)
+	} else {
+		k := val.Gen(val.Options{MaxDepth: 1}).Draw(t, "k")
+		h := int64(k.Build().Hash())
+		twins := []val.V{val.I(h), val.D(h), val.T(h)}
+		if f := math.Float64frombits(uint64(h)); !math.IsNaN(f) && !math.IsInf(f, 0) {
+			twins = append(twins, val.F(f))
+		}
+		perm := rapid.Permutation(twins).Draw(t, "twins")
+		vs = []val.V{k}
+		for _, w := range perm {
+			if len(vs) < 3 && w.Key() != k.Key() && (len(vs) < 2 || rapid.Bool().Draw(t, "third")) {
+				vs = append(vs, w)
+			}
+		}
+	}
+	if rapid.IntRange(0, 2).Draw(t, "wrapKeys") == 0 {
+		return vs
+	}
+	for lv := rapid.IntRange(1, 2).Draw(t, "wrapLevels"); lv > 0; lv-- {
+		shape := rapid.IntRange(0, 7).Draw(t, "wrapShape")
+		sib := val.GenScalar(val.Options{}).Draw(t, "wrapSibling")
+		for i, v := range vs {
+			switch shape {
+			case 0:
+				vs[i] = val.L(v)
+			case 1:
+				vs[i] = val.L(sib, v)
+			case 2:
+				vs[i] = val.L(v, sib)
+			case 3:
+				vs[i] = val.P(v, sib)
+			case 4:
+				vs[i] = val.P(sib, v)
+			case 5:
+				vs[i] = val.M([2]val.V{sib, v})
+			case 6:
+				vs[i] = val.M([2]val.V{v, sib})
+			default:
+				vs[i] = val.St([2]val.V{val.N("/f"), v})
+			}
+		}
+	}
+	return vs
+}
+
+// genCollidingMap draws a map with at least two keys of equal Hash() (genHashEqual), optionally a
+// further unrelated key, bare or as a part of a list, pair, map value or struct field.
+func genCollidingMap(t *rapid.T) val.V {
+	keys := genHashEqual(t)
+	if rapid.Bool().Draw(t, "extraKey") {
+		keys = append(keys, val.GenScalar(val.Options{}).Draw(t, "xk"))
+	}
+	keys = rapid.Permutation(keys).Draw(t, "supplyOrder")
+	m := val.V{T: val.Map}
+	seen := map[string]bool{}
+	for _, k := range keys {
+		if seen[k.Key()] || k.HasDupKeys() {
+			continue
+		}
+		seen[k.Key()] = true
+		m.KV = append(m.KV, [2]val.V{k, val.Gen(val.Options{MaxDepth: 1}).Draw(t, "mv")})
+	}
+	switch rapid.IntRange(0, 7).Draw(t, "mapAt") {
+	case 0:
+		return val.L(m, val.I(1))
+	case 1:
+		return val.P(val.S("m"), m)
+	case 2:
+		return val.M([2]val.V{val.N("/k"), m})
+	case 3:
+		return val.St([2]val.V{val.N("/m"), m})
+	}
+	return m
+}
+
 func genValue(t *rapid.T, o val.Options) val.V {
-	switch k := rapid.IntRange(0, 12).Draw(t, "value"); {
+	switch k := rapid.IntRange(0, 13).Draw(t, "value"); {
+	case k == 13:
+		return genCollidingMap(t)
 	case k == 12:
 		return genDeepValue(t)
 	case k <= 1:
@@ -1234,6 +1391,8 @@ func genCase(t *rapid.T) Case {
 			v = genValue(t, full)
 		case 1:
 			v = genDeepValue(t)
+		case 7:
+			v = genCollidingMap(t)
 		}
 		return Case{Kind: kConst, Const: &v}
 	case k == 3:
@@ -1263,7 +1422,7 @@ func TestC09(t *testing.T) {
 	rapid.Check(t, func(rt *rapid.T) {
 		c := genCase(rt)
 		run.Current(c)
-		v := check(run, rt, c)
+		v := check(run, rt, c, 12)
 		run.Case(v.nontrivial, c.hash(), v.labels...)
 		if v.nontrivial {
 			run.Sample(c.Kind, c)
@@ -1277,5 +1436,6 @@ func TestReplay(t *testing.T) {
 		return
 	}
 	run := stats.Begin("C09", "TestReplay")
-	check(run, t, c)
+	// many repeats make the replay of a failure that depends on Go's map iteration order practically certain
+	check(run, t, c, 100)
 }
